@@ -211,12 +211,73 @@ def joinpoint_lists_reset(chk, rid, drv):
                key=f"esrally/driver/driver.py:Allocator.allocations:fresh-list:{jpc[0].args[1:3].index(a)}")
 
 
+def _ev_num(expr, env):
+    """sa.minieval.ev plus what minieval lacks for bound arithmetic: min()/max() of SEVERAL arguments and math.ceil / math.floor. The calls are reduced
+    innermost-first to constants (their arguments are evaluated by minieval), the rest of the expression is evaluated by minieval. CannotEval propagates."""
+    import math
+
+    from sa import minieval as me
+
+    class R(ast.NodeTransformer):
+        def visit_Call(self, n):
+            self.generic_visit(n)
+            d = dotted(n.func)
+            if d in ("min", "max") and len(n.args) >= 2 and not n.keywords and not any(isinstance(a, ast.Starred) for a in n.args):
+                vals = [me.ev(a, env) for a in n.args]
+                if all(isinstance(v, (int, float)) and not isinstance(v, bool) for v in vals):
+                    return ast.copy_location(ast.Constant(value=(min if d == "min" else max)(vals)), n)
+            if d in ("math.ceil", "math.floor", "ceil", "floor") and len(n.args) == 1 and not n.keywords:
+                v = me.ev(n.args[0], env)
+                if isinstance(v, (int, float)) and not isinstance(v, bool):
+                    return ast.copy_location(ast.Constant(value=(math.ceil if d.endswith("ceil") else math.floor)(v)), n)
+            return n
+
+    return me.ev(R().visit(source.clone(expr)), env)
+
+
+# representative (element's client count e, row count R) pairs: the row count is the maximum over all elements (O2.7), so only e <= R occurs; e >= 1 inside the client loop
+_ER_PAIRS = [(e, r) for r in range(1, 6) for e in range(1, r + 1)]
+
+
+def _bound_values(bound, defs, rows_texts, elem):
+    """Value of a wrap bound (a modulus / divisor in the per-element loop of the matrix builder) for every representative (e, R): single-assignment locals are inlined, every
+    sub-expression that IS the row count (by data flow) stands for R, `<element>.clients` for e. -> (inlined text, [(e, R, value)]); CannotEval when it reads anything else."""
+    from sa import minieval as me
+
+    class S(ast.NodeTransformer):
+        def visit(self, n):
+            if isinstance(n, ast.expr) and u(n) in rows_texts:
+                return ast.Name(id="__rows__", ctx=ast.Load())
+            return self.generic_visit(n)
+
+    # as written (`len(<matrix>)`) and again after inlining (`max_clients` -> `self.clients`)
+    tree = S().visit(inline_node(S().visit(source.clone(bound)), defs))
+    out = []
+    for e, r in _ER_PAIRS:
+        v = _ev_num(tree, {"__rows__": r, elem: me.Record(clients=e)})
+        if isinstance(v, bool) or not isinstance(v, (int, float)):
+            raise me.CannotEval(f"{u(bound)}: not a number")
+        out.append((e, r, v))
+    return u(inline_node(bound, defs)), out
+
+
+def _is_element_count(bound, defs, rows_texts, elem) -> bool:
+    """the bound is, for every representative (e, R), the element's own client count (which never exceeds the row count)"""
+    from sa import minieval as me
+
+    try:
+        return all(v == e for e, _, v in _bound_values(bound, defs, rows_texts, elem)[1])
+    except me.CannotEval:
+        return False
+
+
 def run(chk):
     repo = chk.repo
     drv, trk = repo.module(_D), repo.module(_T)
     chk.use(drv, trk)
     chk.explanation = (
-        "Decides the allocation arithmetic by shape: join-point / entry agreement; matrix rows addressed modulo the row count (the same modulus for tasks and padding); per-task "
+        "Decides the allocation arithmetic by shape: join-point / entry agreement; matrix rows addressed modulo the row count (the same modulus for tasks and padding) and, decided on "
+        "representative (element clients, row count) values, whether that modulus and the padding bound are the element's own client count (O2.8, client cap of a parallel element); per-task "
         "client ranges telescope (range(s, s+n), s += n, task-local index i - s); worker partition tiles 0..n-1 contiguously (range(c, c+k), c += k), per-host share = "
         "min(ceil(n/hosts), remaining) with remaining decreased by the same amount, round-robin per core; worker ids are list positions; a parallel element's client count is "
         "computed on demand from its current sub-tasks."
@@ -238,8 +299,11 @@ def run(chk):
     elem = L.target.id
 
     # ---- O2.2 row index reduced -------------------------------------------------------------------------------------------------------
-    chk.rule("O2.2", "every row subscript of the matrix inside the per-client loop is `<client index> % <row count>`, and the None padding wraps at the same modulus", 3,
+    chk.rule("O2.2", "every row subscript of the matrix inside the per-client loop is `<client index> % <row count>` (or `% <the element's own client count>`, which never exceeds the "
+             "row count: see O2.8), and the None padding wraps at the same modulus", 3,
              "over-committed parallel element inside a schedule with a wider element: rows addressed modulo the wrong count -> ragged matrix / IndexError")
+    rows_texts = {rc_text, f"len({matrix})"}
+    row_mods = []  # (append to a matrix row inside the client loops, the `i % m` its row index is defined as or None)
     ta_apps = []
     for n in ast.walk(L):
         if isinstance(n, ast.Call) and last_attr(n.func) == "append" and isinstance(n.func, ast.Attribute) and isinstance(n.func.value, ast.Subscript) and u(n.func.value.value) == matrix:
@@ -261,11 +325,19 @@ def run(chk):
             continue
         n_checked += 1
         d = ldefs.get(idx.id, [None])[0] if isinstance(idx, ast.Name) else idx
-        ok = isinstance(d, ast.BinOp) and isinstance(d.op, ast.Mod) and inline(d.right, defs) == rc_text
-        chk.ob("O2.2", f"row subscript of `{short(a, 50)}`", ok, a, f"index `{u(idx)}` = `{u(d) if d is not None else '?'}`; row count = {rc_text}" + ("" if ok else " — not reduced modulo the row count"))
+        is_mod = isinstance(d, ast.BinOp) and isinstance(d.op, ast.Mod)
+        # in range either way: reduced modulo the row count itself, or modulo a bound decided (on values) to be the element's own client count, which is at most the row count
+        ok = is_mod and (inline(d.right, defs) == rc_text or _is_element_count(d.right, defs, rows_texts, elem))
+        row_mods.append((a, d if is_mod else None, d))
+        chk.ob("O2.2", f"row subscript of `{short(a, 50)}`", ok, a, f"index `{u(idx)}` = `{u(d) if d is not None else '?'}`; row count = {rc_text}"
+               + ("" if ok else " — not reduced modulo the row count (nor modulo the element's own client count)"))
     chk.ob("O2.2", "row subscripts located", n_checked >= 1, L, f"{n_checked} non-broadcast row subscript(s)")
     mods = [n for n in ast.walk(L) if isinstance(n, ast.BinOp) and isinstance(n.op, ast.Mod)]
     ok = bool(mods) and all(inline(m.right, defs) == rc_text for m in mods)
+    if not ok and mods and row_mods and all(d is not None for _, d, _ in row_mods):
+        # rows that wrap at the element's own client count: every other modulus of the loop (the padding) must then be that same bound
+        sub_ = {inline(d.right, defs) for _, d, _ in row_mods}
+        ok = len(sub_) == 1 and all(_is_element_count(d.right, defs, rows_texts, elem) for _, d, _ in row_mods) and all(inline(m.right, defs) in sub_ for m in mods)
     chk.ob("O2.2", "all moduli in the schedule loop are the row count", ok, mods[0] if mods else L, f"{sorted({u(m.right) for m in mods})}")
 
     # ---- O2.3 per-task tiling ----------------------------------------------------------------------------------------------------------------
@@ -462,6 +534,62 @@ def run(chk):
         bad = [(m_, n) for m_, n in wr if not (source.enclosing_func(n) is pinit)]
         chk.ob("O2.6", f"the explicit client count (`{expl_attr}`) is written only at construction", bool(wr) and not bad, bad[0][1] if bad else pinit,
                "" if not bad else f"rewritten in {bad[0][0].relpath}:{source.qualname(bad[0][1])}: `{short(bad[0][1], 60)}`", key=f"esrally/track/track.py:Parallel:{expl_attr}:writers")
+
+    # ---- O2.8 an element occupies only its own clients (F45) -----------------------------------------------------------------------------------------
+    chk.rule("O2.8", "a schedule element occupies exactly the clients it requests: the matrix row of an element-wide client index is that index modulo the ELEMENT's own client count "
+             "(<element>.clients, at most the row count) and the None padding completes rounds of that same count; wrapping at the schedule-wide row count only honours the client "
+             "cap of a parallel element that happens to be the widest element of the schedule", 2,
+             "a parallel element that caps its clients (`clients: N` below the sum of its sub-tasks' clients) next to a wider schedule element: its sub-tasks are spread over up to "
+             "<row count> clients and run concurrently instead of in rounds of N (more load than requested; total_clients / ramp-up still computed from N)")
+    from sa import minieval as _me
+
+    def _first_other(vals):
+        # a witness (e, R, value) with value != e; the capped pair of the item (2 clients next to a 4-client element) is shown when it is one
+        return next(((e_, r_, v_) for e_, r_, v_ in sorted(vals, key=lambda t: (t[:2] != (2, 4),)) if v_ != e_), None)
+
+    if not row_mods:
+        raise AnchorMissing("row subscript of the task allocations in the client loop of the matrix builder")
+    for k_, (a, d, raw) in enumerate(row_mods):
+        key_ = f"{_D}:Allocator.allocations:element-modulus" + ("" if k_ == 0 else f":{k_}")
+        if d is None:
+            if isinstance(raw, ast.Name) and raw.id == i:
+                # the logical (element-wide) index itself: the element is spread over as many rows as its sub-tasks have clients in total
+                chk.ob("O2.8", "the row of a client wraps at the element's own client count", False, a, f"row index `{u(a.func.value.slice)}` is the unreduced element-wide client index `{i}`", key=key_)
+            else:
+                chk.unknown("O2.8", f"row index `{u(a.func.value.slice)}` = `{u(raw) if raw is not None else '?'}` is not of the form `<client index> % <bound>`", a)
+            continue
+        try:
+            txt, vals = _bound_values(d.right, defs, rows_texts, elem)
+        except _me.CannotEval as x:
+            chk.unknown("O2.8", f"modulus `{u(d.right)}` of the row subscript is not an expression over the row count and `{elem}.clients` ({x})", d)
+            continue
+        w = _first_other(vals)
+        chk.ob("O2.8", "the row of a client wraps at the element's own client count", w is None, d,
+               f"modulus `{u(d.right)}` = {txt}" + ("" if w is None else f": an element with {w[0]} client(s) in a schedule whose widest element has {w[1]} wraps at {w[2]}, "
+                                                    f"i.e. is spread over up to {w[2]} clients instead of {w[0]}"), key=key_)
+    # every other wrap / round computation on the element's client indices (modulus, divisor) inside the per-element loop: the None padding
+    taken = {id(d) for _, d, _ in row_mods if d is not None}
+    idx_names = {svar, i}
+    bounds = [n for n in ast.walk(L) if isinstance(n, ast.BinOp) and isinstance(n.op, (ast.Mod, ast.Div, ast.FloorDiv)) and id(n) not in taken
+              and idx_names & {x.id for x in ast.walk(inline_node(n.left, defs)) if isinstance(x, ast.Name)}]
+    wrong, undecided = [], []
+    for n in bounds:
+        try:
+            txt, vals = _bound_values(n.right, defs, rows_texts, elem)
+        except _me.CannotEval as x:
+            undecided.append((n, str(x)))
+            continue
+        w = _first_other(vals)
+        if w is not None:
+            wrong.append((n, txt, w))
+    if undecided:
+        chk.unknown("O2.8", f"padding bound `{u(undecided[0][0])}` is not an expression over the row count and `{elem}.clients` ({undecided[0][1]})", undecided[0][0])
+    if wrong or not undecided:
+        chk.ob("O2.8", "the None padding completes rounds of the element's own client count", not wrong, wrong[0][0] if wrong else (bounds[0] if bounds else L),
+               (f"{len(bounds)} wrap bound(s) on the element's client total outside the row subscript: {sorted({u(n) for n in bounds})}" if not wrong else
+                f"`{u(wrong[0][0])}` wraps at {wrong[0][1]}: for an element with {wrong[0][2][0]} client(s) in a schedule whose widest element has {wrong[0][2][1]} the bound is "
+                f"{wrong[0][2][2]}; {len(wrong)} of {len(bounds)} bound(s) differ from the element's client count"),
+               key=f"{_D}:Allocator.allocations:element-padding-bound")
 
 
 from sa.selftest import V  # noqa: E402
